@@ -42,7 +42,7 @@ ASSUMPTIONS = [
     'symbol tables are generated without STT_GNU_IFUNC / STB_GNU_UNIQUE and notes without annobin/stapsdt owners: the clone\'s '
     'description tables have no entries for them',
 ]
-KINDS = {'corpus': (288, 1011, 0), 'compiled': (20, 44, 1), 'descr': (60, 60, 2), 'dwdescr': (40, 40, 1), 'generated': (132, 1650, 4)}
+KINDS = {'corpus': (288, 1011, 0), 'compiled': (20, 44, 1), 'descr': (60, 60, 2), 'dwdescr': (40, 40, 1), 'generated': (220, 2200, 4)}
 FLOOR = {'quick': 150, 'thorough': 600}
 CASE_TIMEOUT = 1200
 OPTIONS = ['-e', '-d', '-s', '-n', '-r', '-x.text', '-p.shstrtab', '-V', '--debug-dump=info', '--debug-dump=decodedline',
@@ -1080,6 +1080,7 @@ def mask(line):
 def run_generated(idx, rng, sh):
     fams = gen_families()
     name, options, gen = fams[idx % len(fams)]
+    rng.variant = idx // len(fams)          # generators may cycle their rare shapes deterministically
     img, desc = gen(rng)
     with oracles.Scratch() as s:
         p = s.write('g_%s_%d.elf' % (name, idx), img)
